@@ -54,3 +54,85 @@ func (o *OracleC13) AfterCall(n *Node, st *Step) {
 		o.s.note("observer_call")
 	}
 }
+
+// runC13 - direct oracle plus the differential part of the statement: "the
+// validators around it make progress exactly as if it were a silent
+// validator".  The same tape is executed twice: once with the special node
+// (a validator with the watch-only flag, or an observer) running, once with it
+// never started; every draw that concerns the special node comes from its own
+// stream, so the other nodes' schedule is identical and their canonical traces
+// must be equal (over the common prefix if an event cap truncated a run).
+func runC13(t *Tape, record bool) *RunResult {
+	special := func(s *Sim) *Node {
+		for _, n := range s.nodes {
+			if n.flagWO {
+				return n
+			}
+		}
+		for _, n := range s.nodes {
+			if n.ident >= s.sc.NIdent {
+				return n
+			}
+		}
+		return nil
+	}
+	scA := WatchScenario(t)
+	sA := NewSim(scA, t)
+	sA.record = record
+	wA := special(sA)
+	if wA != nil {
+		wA.special = true
+	}
+	cA := NewCanon(sA)
+	cA.Only = func(n *Node) bool { return !n.special }
+	sA.AddOracle(NewOracleC13(sA))
+	sA.AddOracle(cA)
+	sA.Run()
+	res := &RunResult{Viol: sA.viol, St: sA.st, Scen: scA.Summary(), Trace: sA.trace, SimCount: 1}
+	if sA.viol != nil || wA == nil {
+		return res
+	}
+	reseedCrypto()
+	tB := NewReplayTape(t.Rec)
+	scB := WatchScenario(tB)
+	sB := NewSim(scB, tB)
+	sB.record = record
+	wB := special(sB)
+	wB.special, wB.neverBoot = true, true
+	cB := NewCanon(sB)
+	cB.Only = func(n *Node) bool { return !n.special }
+	sB.AddOracle(cB)
+	sB.Run()
+	res.SimCount = 2
+	res.St.Events += sB.st.Events
+	res.St.Calls += sB.st.Calls
+	res.St.TraceHash = mix64(sA.st.TraceHash, sB.st.TraceHash)
+	// the two runs may stop at slightly different instants (event caps count the
+	// special node's own events): the common prefix must be identical
+	a, b := cA.Steps, cB.Steps
+	m := len(a)
+	if len(b) < m {
+		m = len(b)
+	}
+	a, b = a[:m], b[:m]
+	if k := firstDiff(a, b); k >= 0 {
+		res.Viol = &Violation{Prop: "C13", Class: "validators_behave_differently_than_with_silent_node", Seq: uint64(k), Node: wA.id,
+			Detail: fmt.Sprintf("with %s watch-only and with it never started the other nodes' traces diverge at their API call #%d (of %d / %d)", wA, k, len(cA.Steps), len(cB.Steps))}
+		if record {
+			res.Trace = nil
+			lo := k - 5
+			if lo < 0 {
+				lo = 0
+			}
+			for i := lo; i <= k+1; i++ {
+				if i < len(cA.Desc) {
+					res.Trace = append(res.Trace, fmt.Sprintf("watch-only[%d] %s", i, cA.Desc[i]))
+				}
+				if i < len(cB.Desc) {
+					res.Trace = append(res.Trace, fmt.Sprintf("silent    [%d] %s", i, cB.Desc[i]))
+				}
+			}
+		}
+	}
+	return res
+}
